@@ -1,5 +1,6 @@
 use super::network_cost_rate::NetworkCostRate;
 use crate::model::cost::cost_model_error::CostModelError;
+use crate::model::unit::{as_f64::AsF64, Cost};
 use crate::{
     model::cost::network::{
         network_access_cost_row::NetworkAccessUtilityRow,
@@ -36,8 +37,8 @@ impl NetworkCostRateBuilder {
                             ))
                         })?
                         .iter()
-                        .map(|row| (row.edge_id, row.cost))
-                        .collect::<HashMap<_, _>>();
+                        .map(|row| Ok((row.edge_id, finite_cost(row.cost, cost_input_file)?)))
+                        .collect::<Result<HashMap<_, _>, CostModelError>>()?;
                 Ok(NCM::EdgeLookup { lookup })
             }
             Builder::EdgeEdgeLookupBuilder { cost_input_file } => {
@@ -50,8 +51,11 @@ impl NetworkCostRateBuilder {
                             ))
                         })?
                         .iter()
-                        .map(|row| ((row.source, row.destination), row.cost))
-                        .collect::<HashMap<_, _>>();
+                        .map(|row| {
+                            let cost = finite_cost(row.cost, cost_input_file)?;
+                            Ok(((row.source, row.destination), cost))
+                        })
+                        .collect::<Result<HashMap<_, _>, CostModelError>>()?;
 
                 Ok(NCM::EdgeEdgeLookup { lookup })
             }
@@ -63,5 +67,18 @@ impl NetworkCostRateBuilder {
                 Ok(NCM::Combined(mappings))
             }
         }
+    }
+}
+
+/// a lookup cost is added to the cost of an edge, which has to stay finite: the csv reader
+/// parses "NaN" and "inf" as numbers, they are rejected here
+fn finite_cost(cost: Cost, cost_input_file: &str) -> Result<Cost, CostModelError> {
+    if cost.as_f64().is_finite() {
+        Ok(cost)
+    } else {
+        Err(CostModelError::BuildError(format!(
+            "non-finite cost {} in file {}",
+            cost, cost_input_file
+        )))
     }
 }
